@@ -1,7 +1,4 @@
 package main
 
-// Placeholder until rules_c01.go provides the real E-close rule (shared with C13 as G-enum).
-func ruleEClose(p *Program, r *Reporter, as string) {}
-
 // Placeholder until rules_c03.go provides F-order(iii) (shared with C13 as G-tmp).
 func ruleGTmpImpl(p *Program, r *Reporter, as string) {}
